@@ -236,7 +236,7 @@ theorem prColType_hive_drops (t : ColType) (h : hiveKeepsParams t.name = false) 
 
 /-- … and keeps them for these three -/
 theorem prColType_hive_keeps (t : ColType) (ps : List Expr) (l : List String) (h : hiveKeepsParams t.name = true)
-    (hp : t.params = some ps) (hl : PR.prList .HIVE ps = .ok l) :
+    (hp : t.params = some ps) (hl : PR.prList8 .HIVE ps = .ok l) :
     PR.prColType .HIVE t = .ok s!"{t.name}({PR.joinS "," l})" := by
   unfold PR.prColType
   unfold hiveKeepsParams at h
